@@ -56,6 +56,7 @@ class Ctx:
         self.radicand_of = {}    # polynomial -> name of its sqrt atom
         self.decided = {}        # canonical comparison -> truth value decided on this path
         self.const_atoms = {'pi': _math.pi}   # atoms that denote a fixed real number -> its float value
+        self.const_hp = {'pi': +_HP.pi}       # the same at 90 significant digits (sign decisions on constants)
         self.bounds = {}         # atom -> (lo, hi) Fractions or None
         self.poly_lower = {}     # polynomial (without constant term) -> lower bound from an assumption
         self.poly_upper = {}
@@ -176,6 +177,19 @@ def _cancel(n, d):
         (dm, dc), = d.t.items()
         if dc != 1:
             n, d = n.scale(1 / dc), Poly({dm: Fr(1)})
+        # the monomial may have a rule (r^2 -> radicand): if the rewritten denominator divides the numerator exactly the
+        # quotient is a polynomial (e.g. (x^2 + y^2)/r^2 = 1 for r = sqrt(x^2 + y^2))
+        dn = normal(d)
+        if dn != d and not dn.is_zero() and len(n.t) <= 60 and len(dn.t) <= 30:
+            key = (n, dn, len(CTX.rules.rules), 'mono')
+            hit = _CANCEL.get(key)
+            if hit is None:
+                q = _sp.cancel(_poly_to_sympy(n) / _poly_to_sympy(dn))
+                nn, dd = _sp.fraction(q)
+                dd = _sympy_to_poly(dd)
+                hit = _CANCEL[key] = (normal(_sympy_to_poly(nn)).scale(1 / dd.const_val()), ONE) if dd.is_const() else False
+            if hit:
+                return hit
         return n, d
     key = (n, d, len(CTX.rules.rules))
     hit = _CANCEL.get(key)
@@ -218,6 +232,43 @@ def _cancel(n, d):
 
 
 ONE = Poly.const(1)
+
+
+import mpmath as _mpmath
+_HP = _mpmath.mp.clone()
+_HP.dps = 90
+
+
+def _hp_poly(p, hp):
+    """(value, sum of term magnitudes) of the polynomial p at the 90-digit values hp of its atoms"""
+    tot = _HP.mpf(0)
+    mag = _HP.mpf(0)
+    for m_, c_ in p.t.items():
+        x_ = _HP.mpf(c_.numerator) / c_.denominator
+        for v_, e_ in m_:
+            x_ = x_ * hp[v_] ** e_
+        tot += x_
+        mag += abs(x_)
+    return tot, mag
+
+
+def const_sign(x):
+    """sign (-1, 0, 1) of an expression over constant atoms only, from a 90-digit evaluation: a value below 1e-70 of
+    the magnitude of its terms is an exact zero that the rewrite rules did not find (e.g. sqrt(2)*sqrt(3) - sqrt(6));
+    None if x has other atoms"""
+    if CTX is None:
+        return None
+    hp = CTX.const_hp
+    for v in x.n.vars() | x.d.vars():
+        if v not in hp:
+            return None
+    n, nm = _hp_poly(x.n, hp)
+    d, dm = _hp_poly(x.d, hp)
+    if abs(d) <= _HP.mpf(10) ** -70 * dm:
+        return None
+    if abs(n) <= _HP.mpf(10) ** -70 * nm:
+        return 0
+    return 1 if (n > 0) == (d > 0) else -1
 
 
 def const_value(x):
@@ -515,25 +566,10 @@ class SBool:
         if diff.is_const():
             x = diff.const()
             return {'<': x < 0, '<=': x <= 0, '>': x > 0, '>=': x >= 0, '==': x == 0, '!=': x != 0}[op]
-        cv = const_value(diff)
-        if cv is not None:
-            # an expression over constant atoms only (sqrt(2), pi, ...): decided numerically.  If the terms cancel to
-            # below 1e-9 of their magnitude the value is taken to be exactly zero (an exact cancellation that is not
-            # syntactic); otherwise the sign of the value decides
-            ca = CTX.const_atoms
-            mag = 0.0
-            for m_, c_ in diff.n.t.items():
-                x_ = abs(c_.numerator / c_.denominator)
-                for v_, e_ in m_:
-                    x_ *= abs(ca[v_]) ** e_
-                mag += x_
-            try:
-                mag /= abs(diff.d.eval(ca))
-            except ZeroDivisionError:
-                mag = 0.0
-            if abs(cv) > 1e-9 * mag and cv != 0:
-                return {'<': cv < 0, '<=': cv <= 0, '>': cv > 0, '>=': cv >= 0, '==': False, '!=': True}[op]
-            return {'<': False, '<=': True, '>': False, '>=': True, '==': True, '!=': False}[op]
+        cs = const_sign(diff)
+        if cs is not None:
+            # an expression over constant atoms only (sqrt(2), pi, ...): its sign is decided from a 90-digit evaluation
+            return {'<': cs < 0, '<=': cs <= 0, '>': cs > 0, '>=': cs >= 0, '==': cs == 0, '!=': cs != 0}[op]
         # sign knowledge: products of atoms with known sign
         sg = _known_sign(diff)
         if sg not in ('pos', 'neg'):
@@ -1343,6 +1379,15 @@ def note_nonneg(x, lower=0):
     lo = Fr(lower) - c0
     CTX.poly_lower[q] = max(CTX.poly_lower.get(q, lo), lo)
     CTX.poly_upper[-q] = min(CTX.poly_upper.get(-q, -lo), -lo)
+    if lower == 0 and c0 == 0:
+        # P = g * Q >= 0 with a monomial g of strictly positive atoms  =>  Q >= 0
+        g = q.content_monomial()
+        if g and all(CTX.sign.get(v) == 'pos' or (CTX.bounds.get(v, (None, None))[0] or 0) > 0 for v, _e in g):
+            q2 = q.div_monomial(g)
+            q2, c2 = _split_const(q2)
+            if not q2.is_zero():
+                CTX.poly_lower[q2] = max(CTX.poly_lower.get(q2, -c2), -c2)
+                CTX.poly_upper[-q2] = min(CTX.poly_upper.get(-q2, c2), c2)
 
 
 def _sqrt_basic(x):
@@ -1375,6 +1420,9 @@ def _sqrt_basic(x):
         cv = const_value(x)
         if cv is not None and cv >= 0:
             CTX.const_atoms[nm] = _math.sqrt(cv)
+            _n, _ = _hp_poly(x.n, CTX.const_hp)
+            _d, _ = _hp_poly(x.d, CTX.const_hp)
+            CTX.const_hp[nm] = _HP.sqrt(_n / _d)
         if x.d.is_const():
             lo_, hi_ = poly_interval(x.n.scale(1 / x.d.const_val()))
             blo = _fsqrt_lo(lo_) if lo_ is not None else Fr(0)
@@ -1535,6 +1583,10 @@ def _angle_poly(x):
     x = SReal.lift(x)
     if not x.d.is_const():
         x = x.simp()
+        cv = const_value(x)
+        if cv is not None:
+            # an angle that is a fixed real number (a quotient of constants): its numeric value
+            return Poly.const(Fr(cv))
         key = ('angq', x.n, x.d)
         if key not in CTX.atoms:
             nm = CTX.fresh('q')
